@@ -279,6 +279,19 @@ func init() {
 				}
 				return
 			}
+			var ov struct {
+				O      bool `json:"override_parent_tag"`
+				Cached bool `json:"cached"`
+				NP     int  `json:"parent_tags"`
+				NR     int  `json:"requested_tags"`
+			}
+			if json.Unmarshal(ctx.Replay, &ov) == nil && ov.O {
+				ctx.Case(ov, "", "tagged-overrides-a-parent-tag", "")
+				if f := c01Override(ov.Cached, ov.NP, ov.NR); f != "" {
+					ctx.Fail("deliveries_add_up_to_increments", f, ov, nil)
+				}
+				return
+			}
 			var sh struct {
 				S      bool `json:"stale_handles"`
 				Cached bool `json:"cached"`
@@ -462,6 +475,15 @@ func init() {
 			cs := map[string]interface{}{"caller_map_reuse": true, "cached": k&1 == 1, "parent_tagged": k&2 == 2, "sanitizer": k&4 == 4}
 			ctx.Case(cs, "", "caller-map-reused-after-tagged", "")
 			if f := callerMapReuse(0, k&1 == 1, k&2 == 2, k&4 == 4); f != "" {
+				ctx.Fail("deliveries_add_up_to_increments", f, cs, nil)
+			}
+		}
+		// a Tagged map overriding a tag of its parent, smaller than, as large as and larger than the
+		// parent's tag set
+		for k := 0; k < 18; k++ {
+			cs := map[string]interface{}{"override_parent_tag": true, "cached": k%2 == 1, "parent_tags": 1 + k/2%3, "requested_tags": 1 + k/6}
+			ctx.Case(cs, "", "tagged-overrides-a-parent-tag", "")
+			if f := c01Override(k%2 == 1, 1+k/2%3, 1+k/6); f != "" {
 				ctx.Fail("deliveries_add_up_to_increments", f, cs, nil)
 			}
 		}
